@@ -164,7 +164,21 @@ func (p *Program) Func(rel, name string) *ssa.Function {
 	if sp == nil {
 		return nil
 	}
-	return lookupFunc(p.SSA, sp, name)
+	if fn := lookupFunc(p.SSA, sp, name); fn != nil {
+		return fn
+	}
+	// renamed private function recognised by the normalisation pre-pass
+	key := sp.Pkg.Path() + "." + strings.NewReplacer("(*", "", ")", "").Replace(name)
+	if nn, ok := funcAlias[key]; ok {
+		alt := name
+		if i := strings.LastIndex(name, "."); i >= 0 {
+			alt = name[:i+1] + nn
+		} else {
+			alt = nn
+		}
+		return lookupFunc(p.SSA, sp, alt)
+	}
+	return nil
 }
 
 func lookupFunc(prog *ssa.Program, sp *ssa.Package, name string) *ssa.Function {
@@ -250,8 +264,52 @@ func (p *Program) FieldVar(rel, typ, field string) *types.Var {
 			return st.Field(i)
 		}
 	}
+	// renamed private field: the only field of the struct that the baseline does not know and that has
+	// the type the baseline recorded for the missing one
+	key := n.Obj().Pkg().Path() + "." + n.Obj().Name() + "." + field
+	if wantT, ok := baselineFields[key]; ok {
+		var cands []*types.Var
+		for i := 0; i < st.NumFields(); i++ {
+			f := st.Field(i)
+			k2 := n.Obj().Pkg().Path() + "." + n.Obj().Name() + "." + f.Name()
+			if _, known := baselineFields[k2]; known {
+				continue
+			}
+			if types.TypeString(f.Type(), func(p *types.Package) string { return p.Path() }) == wantT {
+				cands = append(cands, f)
+			}
+		}
+		// several renamed fields of one type: keep declaration order among the missing ones
+		var missing []string
+		for k, t := range baselineFields {
+			if strings.HasPrefix(k, n.Obj().Pkg().Path()+"."+n.Obj().Name()+".") && t == wantT {
+				name := k[strings.LastIndex(k, ".")+1:]
+				found := false
+				for i := 0; i < st.NumFields(); i++ {
+					if st.Field(i).Name() == name {
+						found = true
+					}
+				}
+				if !found {
+					missing = append(missing, k)
+				}
+			}
+		}
+		if len(cands) == len(missing) && len(cands) > 0 {
+			sort.Slice(missing, func(i, j int) bool { return baselineFieldOrder[missing[i]] < baselineFieldOrder[missing[j]] })
+			for i, k := range missing {
+				if k == key {
+					return cands[i]
+				}
+			}
+		}
+	}
 	return nil
 }
+
+// baselineFields: pkg.Type.field -> type string; baselineFieldOrder: declaration index.
+var baselineFields = map[string]string{}
+var baselineFieldOrder = map[string]int{}
 
 // Global returns the package-level variable rel.name.
 func (p *Program) Global(rel, name string) *ssa.Global {
